@@ -220,7 +220,8 @@ def main():
         if not clause:
             out(dict(confirmed=False, note="no clause"))
         try:
-            val = eval(compile(ast.Expression(ast.parse(clause, mode="eval").body), "<clause>", "eval"), env)
+            import native_dsl
+            val = eval(compile(native_dsl.tolerant(ast.parse(clause, mode="eval")), "<clause>", "eval"), env)
             out(dict(confirmed=not bool(val), observed=dict(clause_value=bool(val), args={k: repr(v) for k, v in args.items()}), note="spec-level lemma evaluated natively on the model's arguments"))
         except Exception as e:
             out(dict(confirmed=False, note="lemma evaluation failed: %r" % e))
@@ -243,8 +244,9 @@ def main():
     except Exception as e:
         out(dict(confirmed=False, note="cannot resolve %s: %r" % (fn, e)))
     # pre-evaluate old(...) sub-expressions
+    import native_dsl
     rew = OldRewriter()
-    tree = rew.visit(ast.parse(clause, mode="eval")) if clause else None
+    tree = native_dsl.tolerant(rew.visit(ast.parse(clause, mode="eval"))) if clause else None
     try:
         for i, o in enumerate(rew.olds):
             env["__old_%d" % i] = copy.deepcopy(eval(compile(ast.Expression(o), "<old>", "eval"), env))
